@@ -380,8 +380,8 @@ def part_a(R: Run):
     singles += [("str", n) for n in sorted(W.lossy_names)]
     for h, ex in sorted(W.exotic.items()):
         singles += [sp for i, sp in enumerate(ex) if sp not in ex[:i]]
-    for fam in W.codeless:
-        singles += fam
+    for fam in W.codeless[: R.pick(3, len(W.codeless))]:
+        singles += fam[: R.pick(2, len(fam))]
     for i, spec in enumerate(singles):
         ops = spec_ops(W, spec, 0, 0) + [["ep", 0], ["pk", 1, 0], ["eq", 0, 1], ["tr", 0, 1, True]]
         jobs.append((f"single-{i}", ops))
@@ -440,7 +440,7 @@ def part_a(R: Run):
     for i in range(R.pick(1, 3)):
         jobs.append((f"capacity-{i}", gen_capacity(rng, W, R.pick(3000, 5000))))
     _, es_big = W.lean_tables()   # the capacity histories added codes (table used for those lines only)
-    nproc = R.pick(36, 400)
+    nproc = R.pick(28, 400)
     for i in range(nproc):
         jobs.append((f"rand-{i}", gen_history(rng, W, R.pick(34, 40), R.pick(3, 4))))
 
@@ -1056,7 +1056,8 @@ def part_b(R: Run):
 
     # --- correspondence (model vs code, all pairs) and the property oracle (all pairs and triples)
     cap = {"XY": R.pick(4000, None), "Tiles": R.pick(6000, None), "GeoBox": R.pick(3000, None),
-           "BoundingBox": R.pick(2500, None)}
+           "BoundingBox": R.pick(2500, None), "Geometry": R.pick(6000, None),
+           "GeoboxTiles": R.pick(3000, None)}
     for fam in fams:
         corr_family(R, fam, tokenize, cap.get(fam.name))
         judge_family(R, fam, tokenize)
